@@ -29,10 +29,12 @@ IsConstructError(cls) == cls \in ConstructErrors
 
 ---------------------------------------------------------------------------
 \* events
-EvIn(k, op, p, a)  == [e |-> "in",  k |-> k, op |-> op, p |-> p, ok |-> TRUE, v |-> a, err |-> ""]
-EvOut(k, op, p, r) == [e |-> "out", k |-> k, op |-> op, p |-> p, ok |-> r.ok, v |-> r.v, err |-> r.err]
-Wrap(k, op, s0, a, r) ==
-    [r EXCEPT !.ev = <<EvIn(k, op, Tell(s0), a)>> \o @ \o <<EvOut(k, op, Tell(r.s), r)>>]
+\* nm: the member name when the node is a Renamed (it is what error paths are made of); path: only recorded events carry one
+EvIn(k, nm, op, p, a)  == [e |-> "in",  k |-> k, nm |-> nm, op |-> op, p |-> p, ok |-> TRUE, v |-> a, err |-> "", path |-> <<>>]
+EvOut(k, nm, op, p, r) == [e |-> "out", k |-> k, nm |-> nm, op |-> op, p |-> p, ok |-> r.ok, v |-> r.v, err |-> r.err, path |-> <<>>]
+NmOf(n) == IF n.k = "Renamed" THEN n.name ELSE ""
+Wrap(n, op, s0, a, r) ==
+    [r EXCEPT !.ev = <<EvIn(n.k, NmOf(n), op, Tell(s0), a)>> \o @ \o <<EvOut(n.k, NmOf(n), op, Tell(r.s), r)>>]
 
 ---------------------------------------------------------------------------
 \* wrapped stream helpers (construct.core.stream_read ...): every failure is StreamError
@@ -210,8 +212,8 @@ FBN(n) ==
 (***************************************************************************)
 ZOk(v, ev)    == ROk(v, Mem(<<>>, 0, 0), EmptyCtx, ev)
 ZErr(cls, ev) == RErr(cls, Mem(<<>>, 0, 0), EmptyCtx, ev)
-ZWrap(k, r) == [r EXCEPT !.ev = <<EvIn(k, "sizeof", 0, VNone)>> \o @
-                                \o <<EvOut(k, "sizeof", 0, [r EXCEPT !.v = IF r.ok THEN VInt(r.v) ELSE VNone])>>]
+ZWrap(n, r) == [r EXCEPT !.ev = <<EvIn(n.k, NmOf(n), "sizeof", 0, VNone)>> \o @
+                                \o <<EvOut(n.k, NmOf(n), "sizeof", 0, [r EXCEPT !.v = IF r.ok THEN VInt(r.v) ELSE VNone])>>]
 ZInt(e, c) == Sz(IntParam(e, Mem(<<>>, 0, 0), c))
 ZB(n, c) ==
     CASE n.k \in {"Bytes", "BytesInteger", "BitsInteger"} -> ZInt(n.len, c)
@@ -232,8 +234,8 @@ ZB(n, c) ==
                  ELSE IF Abs(cnt.v) >= Lim \/ Abs(z.v) >= Lim THEN ZErr(OutOfModel, z.ev) ELSE ZOk(cnt.v * z.v, z.ev)
       [] n.k = "IfThenElse" ->
             LET cnd == EvalCtx(n.cond, c) IN
-            IF ~cnd.ok THEN ZErr(cnd.err, <<>>)                 \* as the code has it: KeyError is not translated
-            ELSE Z(IF Truthy(cnd.v) THEN n.then ELSE n.else, c)
+            IF ~cnd.ok THEN Sz(ZErr(cnd.err, <<>>))
+            ELSE Sz(Z(IF Truthy(cnd.v) THEN n.then ELSE n.else, c))
       [] n.k = "Switch" ->
             LET key == EvalCtx(n.key, c) IN
             IF ~key.ok THEN Sz(ZErr(key.err, <<>>))
@@ -252,7 +254,7 @@ ZB(n, c) ==
             LET a == Z(n.lenf, c) IN IF ~a.ok THEN a ELSE
             LET b == Z(n.sub, c) IN IF ~b.ok THEN [b EXCEPT !.ev = a.ev \o @] ELSE ZOk(a.v + b.v, a.ev \o b.ev)
       [] n.k = "FixedSized" ->
-            LET L == IntParam(n.len, Mem(<<>>, 0, 0), c) IN      \* as the code has it: no KeyError translation
+            LET L == ZInt(n.len, c) IN
             IF ~L.ok THEN L ELSE IF L.v < 0 THEN ZErr("PaddingError", <<>>) ELSE ZOk(L.v, <<>>)
       [] n.k = "Transformed" ->
             IF n.damt < 0 \/ n.eamt < 0 THEN ZErr("SizeofError", <<>>)
@@ -266,7 +268,7 @@ ZB(n, c) ==
       [] n.k = "Invalid" -> ZErr(n.err, <<>>)
       [] "sub" \in DOMAIN n -> Z(n.sub, c)       \* Subconstruct default (Renamed, Const, adapters, RawCopy, Process*, Lazy ...)
       [] OTHER -> ZErr(OutOfModel, <<>>)
-Z(n, c) == IF IsMacro(n) THEN Z(Expand(n), c) ELSE ZWrap(n.k, ZB(n, c))
+Z(n, c) == IF IsMacro(n) THEN Z(Expand(n), c) ELSE ZWrap(n, ZB(n, c))
 ZLoop(subs, i, c, acc, ev) ==
     IF i > Len(subs) THEN ZOk(acc, ev)
     ELSE LET z == Z(subs[i], c) IN
@@ -284,7 +286,7 @@ RECURSIVE P(_, _, _), PB(_, _, _), PStructLoop(_, _, _, _, _, _), PSeqLoop(_, _,
           NTScan(_, _, _, _, _)
 Fuel == 40          \* iterations after which a repeater is declared divergent (GreedyRange(Pass) ...)
 
-P(n, s, c) == IF IsMacro(n) THEN P(Expand(n), s, c) ELSE Wrap(n.k, "parse", s, VNone, PB(n, s, c))
+P(n, s, c) == IF IsMacro(n) THEN P(Expand(n), s, c) ELSE Wrap(n, "parse", s, VNone, PB(n, s, c))
 
 \* index of the Switch case selected by key (0 = default)
 SwitchIdx(n, key) == CHOOSE i \in 0..Len(n.ck) :
@@ -651,7 +653,7 @@ RECURSIVE B(_, _, _, _), BB(_, _, _, _), BStructLoop(_, _, _, _, _, _), BSeqLoop
           BArrayLoop(_, _, _, _, _, _, _), BGreedyLoop(_, _, _, _, _, _, _), BRepeatLoop(_, _, _, _, _, _, _, _),
           BSelectLoop(_, _, _, _, _, _), BUnionLoop(_, _, _, _, _, _), BFocusedLoop(_, _, _, _, _, _, _, _, _)
 
-B(n, obj, s, c) == IF IsMacro(n) THEN B(Expand(n), obj, s, c) ELSE Wrap(n.k, "build", s, obj, BB(n, obj, s, c))
+B(n, obj, s, c) == IF IsMacro(n) THEN B(Expand(n), obj, s, c) ELSE Wrap(n, "build", s, obj, BB(n, obj, s, c))
 Fresh == Mem(<<>>, 0, 0)
 RejOom == [ok |-> FALSE, v |-> <<>>, oom |-> TRUE]
 TypeErrOr(v) == IF v.t \in {"opaque", "frame", "rat"} THEN OutOfModel ELSE "TypeError"
